@@ -155,6 +155,19 @@ func runC03(c *fw.Ctx, idx int) fw.Result {
 	} else if got != exp.String() {
 		res.Fail("snp-list-mismatch", "snps output differs from the base-set model: "+firstDiff(exp.String(), got), files, argv)
 	}
+	if err == nil && (idx%25 == 3 || idx < 8) {
+		useStdin := idx%2 == 0
+		binSample(c, &res, idx, "snps", map[string]string{"ref.fasta": refText, "aln.fasta": aln}, func(p func(string) string) []string {
+			a := []string{"snps", "-r", p("ref.fasta")}
+			if !useStdin {
+				a = append(a, "-q", p("aln.fasta"))
+			}
+			if hard {
+				a = append(a, "--hard-gaps")
+			}
+			return a
+		}, map[bool][]byte{true: []byte(aln), false: nil}[useStdin], map[bool]string{true: "", false: "-o"}[idx%3 == 0], got)
+	}
 	if !exhaustive && nsnp > 0 && ncompat > 0 {
 		wc := len(ref) / 50
 		if wc > 10 {
